@@ -4,8 +4,10 @@ if [ -n "$(git -C /repo status --porcelain)" ]; then echo "REFUSING: /repo dirty
 cd /verif
 rc=0
 for p in $(python3 -c "import json;print(' '.join(c['property_id'] for c in json.load(open('/verif/MANIFEST.json'))['checks']))"); do
-  s=$(date +%s); out=$(./bin/govc check $p 2>&1 | grep -v abstraction | tail -3); e=$?
-  echo "$p: $(echo "$out" | tail -1 | cut -c1-160) [$(( $(date +%s)-s ))s]"
-  echo "$out" | grep -q "^VIOLATION\|CHECK-BROKEN" && rc=1
+  s=$(date +%s); ./bin/govc check $p > /tmp/refresh_$p.out 2>&1; e=$?
+  echo "$p: exit=$e $(grep -v abstraction /tmp/refresh_$p.out | tail -1 | cut -c1-140) [$(( $(date +%s)-s ))s]"
+  grep "^VIOLATION\|CHECK-BROKEN" /tmp/refresh_$p.out | head -3
+  [ $e -ne 0 ] && rc=1
+  rm -f /tmp/refresh_$p.out
 done
 exit $rc
